@@ -25,6 +25,9 @@ ASSUMPTIONS = [
     "dup2(a, b) with a != b makes b refer to a's object with FD_CLOEXEC clear and is a no-op for a == b; fcntl(F_DUPFD_CLOEXEC, min) "
     "returns a new descriptor >= min referring to the same object; pipe() fills [read end, write end]",
     "the parse_options summary (verified by C13)",
+    "fileno(f) answers with the descriptor number recorded in f and does not look whether that descriptor is open (glibc); "
+    "fcntl(fd, F_GETFD) fails with EBADF exactly when fd is not open; dup() returns the lowest free descriptor number",
+    "in the forked child every descriptor outside the keep list has been closed (C11.X2)",
 ]
 
 TYPES = ["PIPE", "PARENT", "DISCARD", "STDOUT", "HANDLE", "FILE", "PATH"]
